@@ -78,7 +78,7 @@ class C26(Prop):
                       st.sampled_from(['a"b', 'back\\slash', 'tab\\there', 'new\nline', '\\', '"', '\\"', '\\u0041',
                                        '%s', '{}', '{0}', '%(x)s']))
     # (a bare signal - no payload at all - is the most common event there is)
-    single = st.fixed_dictionaries({"name": names, "payload": st.one_of(st.none(), json_payload, json_payload, json_payload),
+    single = st.fixed_dictionaries({"name": names, "payload": st.one_of(st.none(), jsonish_text, json_payload, json_payload, json_payload),
                                     "foreign": st.integers(0, 2).map(lambda i: i == 0)})
     # several threads encode and decode their own events at the same time (a bridge that serialises
     # from more than one active object): every thread gets its own event back
